@@ -751,7 +751,9 @@ class P(Prop):
         # observation is marked, and says nothing about the pieces' uids (not compared)
         def canon(o):
             o = {k: v for k, v in o.items() if k != "uids"}
-            if case["kind"] != "splitidx" and o.get("pieces") and o["pieces"][-1] == []:
+            if case["kind"] == "coll":
+                o["pieces"] = [p for p in o["pieces"] if p]      # one possible empty trailing piece per track
+            elif case["kind"] != "splitidx" and o.get("pieces") and o["pieces"][-1] == []:
                 o["pieces"] = o["pieces"][:-1]
             return o
         return Prop.compare(self, case, canon(impl_out), canon(model_out))
@@ -798,6 +800,11 @@ class P(Prop):
                     cur = owner[0]
                 groups[cur].append([g - bounds[cur][0] for g in p])
             for j, w in enumerate(want):
+                if "1" not in w and groups[j] == [list(range(len(w)))]:
+                    # the statement is about split() on one track; whether the collection front end leaves out a track
+                    # that has no marked observation (what it does) or keeps it whole (what its docstring suggests) is
+                    # not fixed by it: both are accepted here, the correspondence pins the current behaviour
+                    continue
                 e = oracle_split([c == "1" for c in w], groups[j])
                 if e:
                     return "track %d of the collection: %s" % (j, e)
